@@ -161,7 +161,12 @@ def run_pipeline(case, data, tmpdir, script_override=None, decisions=None, strat
             holder["saver"] = saver
             reader.vf_victim = lambda: saver.__dict__.get("_vf_state")
             holder["saver_path"] = path
-            saver.start()
+            if "saver-last" not in (case.get("start_order") or ""):
+                saver.start()
+            else:
+                # (the source delivers a few blocks and then pauses until the writer thread exists: a tokenizer that reached
+                #  the end of the stream before that would join a thread that was never started - the caller's mistake)
+                reader.vf_gate = (min(case.get("sched_seed", 0) % 4, max(0, len(case["v"]) - 1)), lambda: holder.get("saver_started", False))
             src = H.OuterProxy(saver)
             holder["proxy"] = src
         observers = []
@@ -228,13 +233,21 @@ def run_pipeline(case, data, tmpdir, script_override=None, decisions=None, strat
         sched.on_signal = stop_takes_effect
         sched.on_join = stop_takes_effect
         holder["stop_takes_effect"] = stop_takes_effect
-        if case.get("start_order") == "tokenizer-first":
+        order = case.get("start_order") or ""
+        if "tokenizer-first" in order:
             # started by hand, tokenizer before its observers (start_all() does it the other way round)
             tw.start()
             for o in observers:
                 o.start()
         else:
             tw.start_all()
+        if "saver-last" in order and saver is not None:
+            # the writer thread of the stream saver is started after the tokenizer already reads through it: what was read in
+            # the meantime waits in its inbox
+            for _ in range(case.get("sched_seed", 0) % 7):
+                sched.yield_point("main-delay")
+            saver.start()
+            holder["saver_started"] = True
         if script_override is not None:
             script_override(sched, holder)
         elif case["stop"] is not None and case["stop"].get("by") == "observer":
